@@ -850,9 +850,17 @@ impl Case for LifeCase {
                 let i = *rng.pick(&live);
                 // mostly the same waker per op, sometimes a replaced one
                 let w = if rng.chance(3, 4) { i as u64 * 10 } else { i as u64 * 10 + rng.range(1, 3) };
-                Some(format!("life poll {i} {w}"))
+                if rng.chance(1, 25) && !self.ring_dropped {
+                    Some(format!("life pollfail {i} {w} {}", *rng.pick(&[libc::EBUSY, libc::ENOMEM, libc::EEXIST])))
+                } else {
+                    Some(format!("life poll {i} {w}"))
+                }
             }
-            2 => Some(format!("life {} {}", if rng.chance(1, 8) { "pdrop" } else { "drop" }, rng.pick(&live))),
+            2 => Some(if rng.chance(1, 12) && !self.ring_dropped {
+                format!("life dropfail {} {}", rng.pick(&live), *rng.pick(&[libc::EBUSY, libc::ENOMEM, libc::EEXIST]))
+            } else {
+                format!("life {} {}", if rng.chance(1, 8) { "pdrop" } else { "drop" }, rng.pick(&live))
+            }),
             3 => {
                 let i = *rng.pick(&inflight);
                 let (res, flags) = self.gen_result(rng, i);
@@ -874,6 +882,9 @@ impl Case for LifeCase {
                     }
                 }
                 let p = if posts.is_empty() { "-".to_string() } else { posts.join(",") };
+                if posts.is_empty() && rng.chance(1, 15) {
+                    return Some(format!("life rpollfail {}", *rng.pick(&[libc::EBUSY, libc::ENOMEM, libc::EAGAIN, libc::EEXIST, libc::EBADR])));
+                }
                 Some(format!("life rpoll {p}"))
             }
             5 => Some("life rdrop".into()),
@@ -1121,6 +1132,86 @@ impl Case for LifeCase {
                     Some(true) => out.push("posted".into()),
                     Some(false) => out.push("overflow".into()),
                 }
+            }
+            ["life", "rpollfail", e] => {
+                let Ok(e) = e.parse::<i32>() else { return vec!["bad-op".into()] };
+                if !(1..4096).contains(&e) || e == libc::EINTR || e == libc::ETIME || self.ring.is_none() {
+                    return vec!["bad-op".into()];
+                }
+                let will_enter = simk::with_ring(self.rfd, |r, _| r.cq_count() == 0);
+                if !will_enter {
+                    return self.exec("life rpoll -");
+                }
+                if !self.completions_safe() {
+                    self.poisoned = true;
+                    return vec!["unsafe-state".into()];
+                }
+                simk::with_ring(self.rfd, |r, _| {
+                    r.enter_scripts.clear();
+                    r.enter_scripts.push_back(simk::EnterScript { fail: Some(e), ..Default::default() });
+                });
+                self.feats.push("ring-poll-enter-fails".into());
+                let mut ring = self.ring.take().unwrap();
+                let r = util::catch(|| ring.poll(Some(Duration::ZERO)));
+                self.ring = Some(ring);
+                simk::with_ring(self.rfd, |r, _| r.enter_scripts.clear());
+                let evs = simk::with_sim(|s| s.events.clone());
+                let entered = evs.iter().find_map(|ev| match ev {
+                    KEv::Enter { to_submit, .. } => Some(*to_submit),
+                    _ => None,
+                });
+                match entered {
+                    Some(n) => out.push(format!("enter submit={n}")),
+                    None => out.push("noenter".into()),
+                }
+                let wakes = util::drain_wakes();
+                self.after_ring_poll(&wakes);
+                self.blocked_wakers.retain(|w| !wakes.contains(w));
+                let frees = self.collect_frees();
+                out.push(format!("wakes {} frees {}", list(&wakes), list(&frees)));
+                match &r {
+                    Err(_) => out.push("panic".into()),
+                    Ok(Err(e)) => out.push(format!("error {}", err_num(e))),
+                    Ok(Ok(())) => {}
+                }
+                let head = simk::with_ring(self.rfd, |r, _| r.cq_head());
+                out.push(format!("cqhead={head}"));
+            }
+            ["life", "pollfail", i, w, e] => {
+                let Ok(e) = e.parse::<i32>() else { return vec!["bad-op".into()] };
+                if !(1..4096).contains(&e) || e == libc::EINTR || e == libc::ETIME {
+                    return vec!["bad-op".into()];
+                }
+                if self.ring.is_some() {
+                    simk::with_ring(self.rfd, |r, _| {
+                        r.enter_scripts.clear();
+                        r.enter_scripts.push_back(simk::EnterScript { fail: Some(e), ..Default::default() });
+                    });
+                }
+                self.feats.push("poll-while-enter-fails".into());
+                let lines = self.exec(&format!("life poll {i} {w}"));
+                if self.ring.is_some() {
+                    simk::with_ring(self.rfd, |r, _| r.enter_scripts.clear());
+                }
+                return lines;
+            }
+            ["life", "dropfail", i, e] => {
+                let Ok(e) = e.parse::<i32>() else { return vec!["bad-op".into()] };
+                if !(1..4096).contains(&e) || e == libc::EINTR || e == libc::ETIME {
+                    return vec!["bad-op".into()];
+                }
+                if self.ring.is_some() {
+                    simk::with_ring(self.rfd, |r, _| {
+                        r.enter_scripts.clear();
+                        r.enter_scripts.push_back(simk::EnterScript { fail: Some(e), ..Default::default() });
+                    });
+                }
+                self.feats.push("drop-while-enter-fails".into());
+                let lines = self.exec(&format!("life drop {i}"));
+                if self.ring.is_some() {
+                    simk::with_ring(self.rfd, |r, _| r.enter_scripts.clear());
+                }
+                return lines;
             }
             ["life", "rpoll", posts] => {
                 if self.ring.is_none() {
